@@ -9,6 +9,13 @@ Import ListNotations.
 Lemma flags_now : cfg_validates_wavelengths = true /\ cfg_rejects_bad_period = true.
 Proof. split; reflexivity. Qed.
 
+(* the repairs of F7b / F7f / F7g / F7h are in the code (/repo 25be872, a6a2099, d569966): pinned the same way -- a source that
+   loses the external-range check, the total-reflection check, the NaN-safe search or the crystal validation breaks this obligation
+   (and the stream finds the concrete input: rules rule_external_range, rule_total_reflection, rule_bad_crystal, the panic rule) *)
+Lemma repairs_now : cfg_checks_external_range = true /\ cfg_checks_total_reflection = true /\ searches_cannot_fail = true /\
+                    cfg_validates_crystal = true.
+Proof. repeat split; reflexivity. Qed.
+
 Section Now.
   Variable num : Type.
   Variable o : NumOps num.
@@ -94,6 +101,56 @@ Section Now.
   Proof.
     intros Hlaw Htot Hgeo. apply now_ok_finite_or_err_at; [exact Hlaw | apply searches_total_at; exact Htot |].
     apply geometry_defined_every. exact Hgeo.
+  Qed.
+  (* ---- FULL STRENGTH with the repairs in the code (repairs_now).  What is left to assume of the oracles for "never panics": the
+     Snell inverse answers, and the crystal-angle search answers for a signal whose external angle exists *)
+  Definition searches_defined_now (c : spdc_cfg num) : Prop :=
+    (forall b e cs, o_snell_inv K b e cs <> None) /\
+    (forall signal e, signal_step o K c = Ok signal -> is_auto (cc_theta_deg (c_crystal c)) = true -> c_pp c = PCOff ->
+       o_snell_ext K signal (cfg_cs0 o c) = Some e -> o_nm_theta K (erase_theta o (cfg_cs0 o c)) e signal (cfg_pump o c) <> None).
+
+  Lemma searches_defined_now_at c : searches_defined_now c -> searches_defined_at o K c.
+  Proof.
+    intros [H1 H2]. split; [exact H1 |]. intros signal Hs. split.
+    - intros Hau Hoff. split.
+      + intros Hf. exfalso. destruct repairs_now as (_ & Ht & _). rewrite Ht in Hf. discriminate.
+      + intros e He. exact (H2 signal e Hs Hau Hoff He).
+    - intros a _ Hf. exfalso. destruct repairs_now as (_ & _ & Hn & _). rewrite Hn in Hf. discriminate.
+  Qed.
+
+  Theorem now_no_panic_full c : scale_order o -> searches_defined_now c -> is_panic (try_as_spdc_now c) = false.
+  Proof. intros Hlaw H. apply now_no_panic_at; [exact Hlaw | apply searches_defined_now_at; exact H]. Qed.
+
+  (* rule 6 (repair of F7f): an external angle of 90 degrees or more is an error *)
+  Theorem now_rule_external_range c e :
+    cfg_le o c = false -> bc_theta_deg (c_signal c) = None -> bc_theta_ext_deg (c_signal c) = Some e ->
+    nltb o (nabs o e) (nQ o 90) = false -> try_as_spdc_now c = Err EExternalRange.
+  Proof.
+    intros Hle Hi He Hr. rewrite (now_steps c Hle). unfold try_as_spdc_steps, signal_step, beam_of_cfg. rewrite Hi, He, Hr.
+    destruct repairs_now as (Hx & _). rewrite Hx. reflexivity.
+  Qed.
+
+  (* rule 7 (repair of F7b): automatic crystal angle for a signal whose external angle does not exist is an error *)
+  Theorem now_rule_total_reflection c signal :
+    cfg_le o c = false -> signal_step o K c = Ok signal -> is_auto (cc_theta_deg (c_crystal c)) = true -> c_pp c = PCOff ->
+    o_snell_ext K signal (cfg_cs0 o c) = None -> try_as_spdc_now c = Err ETotalReflection.
+  Proof.
+    intros Hle Hs Hau Hoff Hn. rewrite (now_steps c Hle). unfold try_as_spdc_steps. rewrite Hs. cbn [bind].
+    unfold poling_step, poling_of_cfg. rewrite Hoff. cbn [bind fst snd]. unfold theta_step, ext_defined. rewrite Hau, Hn.
+    cbn [is_pol_off negb]. destruct repairs_now as (_ & Ht & _). rewrite Ht. reflexivity.
+  Qed.
+
+  (* rule 4' (repair of F7h): an automatic-period search that finds nothing is the error, not a panic *)
+  Theorem now_rule_search_finds_nothing c signal a :
+    cfg_le o c = false -> signal_step o K c = Ok signal -> c_pp c = PCConfig Auto a ->
+    signal_le_pump o signal (cfg_pump o c) = false ->
+    neqb o (o_dkz0 K signal (cfg_pump o c) (cfg_cs0 o c)) (n0 o) = false ->
+    o_nm_period K signal (cfg_pump o c) (cfg_cs0 o c) = None -> try_as_spdc_now c = Err EImpossiblePeriod.
+  Proof.
+    intros Hle Hs Hp Hlp Hz Hn. rewrite (now_steps c Hle). unfold try_as_spdc_steps. rewrite Hs. cbn [bind].
+    unfold poling_step, poling_of_cfg. rewrite Hp. unfold optimum_poling_period.
+    fold (Config.cfg_pump o c). fold (Config.cfg_cs0 o c). rewrite Hlp, Hz, Hn.
+    destruct repairs_now as (_ & _ & Hf & _). rewrite Hf. reflexivity.
   Qed.
 End Now.
 Arguments try_as_spdc_now {num} o U K minpos c.
